@@ -1,5 +1,6 @@
 import Driver.Proto
 import Uft.Model.Argbuf
+import Uft.Model.MemRegion
 /- C09 driver (model `Argbuf`).
    FIX <nullMarker 0|1> <bounds 0|1>                 -> ok
    FN <k> <spec> …                                    -> ok      spec = idx:fmt:size:ty:loc:sregs  (fmt one of diuxoscfSpet, sregs a.b.c or -)
@@ -11,6 +12,12 @@ import Uft.Model.Argbuf
    REC <time> <type> <depth> <hexaddr> <hex|none>     -> hex of recordBytes
    PARSE <k> <E|X> <hex>                              -> data=<hex> rest=<n> text=<hex>   |  fail
    DECODE <hex>                                       -> time:type:depth:addr:<hex|none> …  | fail
+   check_mem_region / copy loop (model `MemRegion`), one thread:
+   MR FIX <0|1>                                       -> ok      (0 = the code as it is, 1 = the repaired probe; resets the cache)
+   MR SPACE <start>:<stop>:<r|n>:<p|h|s>;…            -> ok      (the address space is now this: lines of /proc/self/maps)
+   MR MEM <fillhex> <addr>:<hex>;…|-                  -> ok      (memory contents)
+   MR STR <hexptr> <room>  /  MR OBJ <hexbase> <room> -> null | bad=<hex> | str=<hex|-> | fault=<hex> why=<pagecross|heapslack|stackslack|stale>
+                                                         followed by " tidy=<0|1> n=<cache entries>"
 -/
 namespace Driver.C09
 open Uft.Argbuf
@@ -21,6 +28,10 @@ structure DS where
   addrs : List (Nat × Nat) := []       -- addr ↦ k
   fill : Byte := 0
   mem : Mem := ⟨fun _ => 0, 0⟩
+  mrFixed : Bool := false
+  cache : Uft.MemRegion.Cache := {}
+  space : Uft.MemRegion.Space := []
+  cont : Uft.MemRegion.Contents := {}
 
 def parseFmt : String → Option Fmt
   | "d" => some .auto | "i" => some .sint | "u" => some .uint | "x" => some .hex | "o" => some .oct
@@ -150,6 +161,56 @@ def step (s : DS) (ws : List String) : DS × String :=
     | none => (s, "bad-op")
   | _ => (s, "bad-op")
 
-def model : Model := { σ := DS, init := {}, step := step }
+def hexOfNat (n : Nat) : String := String.mk (Nat.toDigits 16 n)
+
+def parseMapping (e : String) : Option Uft.MemRegion.Mapping :=
+  match e.splitOn ":" with
+  | [a, b, r, k] =>
+    match parseHexNat a, parseHexNat b with
+    | some a, some b =>
+      let kind := if k = "h" then Uft.MemRegion.Kind.heap else if k = "s" then Uft.MemRegion.Kind.stack else .plain
+      some { start := a, stop := b, r := r == "r", kind := kind }
+    | _, _ => none
+  | _ => none
+
+def showOutcome (o : Uft.MemRegion.Outcome) (c : Uft.MemRegion.Cache) (sp : Uft.MemRegion.Space) (p : Nat) : String :=
+  match o with
+  | .null => "null"
+  | .bad a => s!"bad={hexOfNat a}"
+  | .str bs => "str=" ++ (if bs.isEmpty then "-" else hexs bs)
+  | .fault a => s!"fault={hexOfNat a} why={Uft.MemRegion.why c sp p}"
+
+def stepMR (s : DS) (ws : List String) : DS × String :=
+  match ws with
+  | ["FIX", a] => ({ s with mrFixed := a != "0", cache := {} }, "ok")
+  | ["SPACE", v] =>
+    match parseList parseMapping v ";" with
+    | some l => ({ s with space := l }, "ok")
+    | none => (s, "bad-op")
+  | ["MEM", f, v] =>
+    match parseHexNat f, parseList (fun e => match e.splitOn ":" with
+        | [a, h] => match parseHexNat a, parseHexBytes h with
+          | some a, some bs => some (a, bs) | _, _ => none
+        | _ => none) v ";" with
+    | some f, some l => ({ s with cont := { chunks := l, fill := UInt8.ofNat f } }, "ok")
+    | _, _ => (s, "bad-op")
+  | [op, p, room] =>
+    match parseHexNat p, room.toNat? with
+    | some p, some room =>
+      if op = "STR" ∨ op = "OBJ" then
+        let o := if op = "STR" then Uft.MemRegion.strCall s.mrFixed s.cache s.space s.cont.get p room
+                 else Uft.MemRegion.objCall s.mrFixed s.cache s.space s.cont.get p room
+        ({ s with cache := o.2 },
+         showOutcome o.1 o.2 s.space p ++ s!" tidy={if o.2.tidy then 1 else 0} n={o.2.regions.length}")
+      else (s, "bad-op")
+    | _, _ => (s, "bad-op")
+  | _ => (s, "bad-op")
+
+def step' (s : DS) (ws : List String) : DS × String :=
+  match ws with
+  | "MR" :: r => stepMR s r
+  | _ => step s ws
+
+def model : Model := { σ := DS, init := {}, step := step' }
 
 end Driver.C09
